@@ -1,6 +1,7 @@
 package stablelink
 
 import (
+	"bytes"
 	"fmt"
 	"sort"
 	"strings"
@@ -428,6 +429,16 @@ var c15FixedCases = []c15Fixed{
 	{"fixed/by-product-option-path-extension-of-another-message", map[string]string{
 		"x.proto": "syntax = \"proto2\";\nimport \"google/protobuf/descriptor.proto\";\nmessage A { extensions 100 to 199; }\nmessage B { extensions 100 to 199; }\nextend A { optional int32 xa = 100; }\nextend google.protobuf.MessageOptions { optional B opt = 50001; }\nmessage M { option (opt).(xa) = 1; }\n",
 	}},
+	// extension names inside message literals that are ELEMENTS OF A LIST literal resolve like any other (R3 success
+	// case with [bar.b.c.i] in package foo.bar anchors the partially qualified spelling)
+	{"fixed/literal-extension-in-list-literal-partially-qualified", map[string]string{
+		"x.proto": "syntax = \"proto2\";\npackage a.b;\nimport \"google/protobuf/descriptor.proto\";\nmessage Item { extensions 100 to 199; }\nextend Item { optional int32 weight = 100; }\nmessage Opt { repeated Item items = 1; optional Item single = 2; }\nextend google.protobuf.MessageOptions { optional Opt opt = 50001; }\nmessage M { option (opt) = { items: [ { [b.weight]: 1 }, { [a.b.weight]: 2 } ] single: { [b.weight]: 3 } }; }\n",
+	}},
+	{"fixed/literal-extension-in-list-literal-shadowed-simple-name", map[string]string{
+		"t.proto": "syntax = \"proto2\";\nimport \"i.proto\";\nextend a.b.Item { optional int32 weight = 101; }\n",
+		"i.proto": "syntax = \"proto2\";\npackage a.b;\nmessage Item { extensions 100 to 199; }\n",
+		"x.proto": "syntax = \"proto2\";\npackage a.b;\nimport \"google/protobuf/descriptor.proto\";\nimport \"i.proto\";\nimport \"t.proto\";\nextend Item { optional int32 weight = 100; }\nmessage Opt { repeated Item items = 1; }\nextend google.protobuf.MessageOptions { optional Opt opt = 50001; }\nmessage M { option (opt) = { items: [ { [weight]: 1 } ] }; }\n",
+	}},
 	{"fixed/control-non-type-at-message-scope-is-skipped", map[string]string{
 		"b.proto": "syntax = \"proto2\";\npackage a.b;\nmessage T {}\nmessage Ext { extensions 100 to 199; }\nmessage Outer { extend Ext { optional int32 T = 100; } message M { optional T f = 1; } }\n",
 	}},
@@ -461,6 +472,24 @@ func runC15Source(r *vlib.Run, c c15Fixed) {
 		r.Class("by-product: compiler panic at " + vlib.PanicSite(fmt.Sprint(out.Panic)) + " (fixed case " + c.id + ")")
 		r.Sample("by-product panic (fixed case "+c.id+")", map[string]any{"sources": c.src, "panic": trunc(fmt.Sprint(out.Panic), 1200)})
 		return
+	}
+	if strings.HasPrefix(c.id, "fixed/literal-extension-in-list-literal") {
+		// all spellings here denote a.b.weight (number 100); the root-level weight (number 101) is further out
+		wit := map[string]any{"sources": c.src, "compile_errors": out.ErrSummary()}
+		if !out.OK() {
+			r.Violation("c15.fails-where-protoc-resolves", "literal-ext inside a list literal; here: "+resolutionErrClass(out.ErrSummary()), c.id, wit)
+		} else if x := compiled["x.proto"]; x != nil {
+			var opts []byte
+			for _, m := range x.MessageType {
+				if m.GetName() == "M" {
+					opts = gen.DetBytes(m.GetOptions())
+				}
+			}
+			if bytes.Contains(opts, []byte{0xa8, 0x06}) || !bytes.Contains(opts, []byte{0xa0, 0x06}) {
+				wit["options_bytes"] = fmt.Sprintf("%x", opts)
+				r.Violation("c15.resolves-differently", "literal-ext inside a list literal; here resolved to another extension", c.id, wit)
+			}
+		}
 	}
 	for _, res := range results {
 		var pf *descriptorpb.FileDescriptorProto
